@@ -118,6 +118,9 @@ theorem gen_of_put {f : Cat → R Cat}
 theorem put_updInter (c : Cat) (S : List ServerM) (T : List TypeM) (G : List TagM) (i : IId) (f : InterM → InterM) :
     (put c S T G).updInter i f = put (c.updInter i f) S T G := rfl
 
+theorem put_getInter (c : Cat) (S : List ServerM) (T : List TypeM) (G : List TagM) (i : IId) :
+    (put c S T G).getInter i = c.getInter i := rfl
+
 theorem addRequestBody_put (d : BDir) (anc : List Up) (b : BodyM) (c : Cat) (S : List ServerM) (T : List TypeM)
     (G : List TagM) : addRequestBody d anc b (put c S T G) = rmap (put · S T G) (addRequestBody d anc b c) :=
   (addRequestBody_gen d anc b).put c S T G
@@ -140,8 +143,16 @@ theorem addRequest_gen (d : BDir) (anc : List Up) : Gen (addRequest d anc) := by
   apply gen_of_put
   intro c S T G
   unfold addRequest
-  simp only [pure_eq, ite_bind, bind_bind, ok_bind, rmap_bind, rmap_ite, rmap_fail, rmap_ok, put_updInter,
-    addRequestBody_put]
+  simp only [pure_eq, ite_bind, bind_bind, ok_bind, fail_bind, rmap_bind, rmap_ite, rmap_fail, rmap_ok, put_updInter,
+    put_getInter, addRequestBody_put]
+  refine ite_congr rfl (fun _ => rfl) (fun _ => ?_)
+  refine ite_congr rfl (fun _ => rfl) (fun _ => ?_)
+  congr 1; funext nt
+  refine ite_congr rfl (fun _ => ?_) (fun _ => rfl)
+  congr 1; funext i
+  cases c.getInter i with
+  | none => simp only [rmap_ite, rmap_fail, rmap_ok]
+  | some x => simp only [rmap_ite, rmap_fail, rmap_ok]
 
 theorem addResponse_gen (d : BDir) (anc : List Up) : Gen (addResponse d anc) := by
   apply gen_of_put
